@@ -1,7 +1,118 @@
 import ASV.Drv.J
+import ASV.Model.Determinism
+import ASV.Spec.Determinism
 namespace ASV.Drv.C17
-open Lean ASV ASV.Drv
+open Lean ASV ASV.Drv ASV.Refine ASV.HitFilter ASV.Determinism
 
-def handle (_j : Json) : R Json := throw "C17: no model yet"
+def b (x : Bool) : Json := toJson x
+
+/-- `[[key, [name,…]], …]`: an insertion-ordered dict of sets, each set as an enumeration -/
+def dictOfJson (j : Json) : R (List (Int × List Int)) :=
+  listOf (fun e => do return (← asInt (← idx e 0), ← listOf asInt (← idx e 1))) j
+def dictToJson (d : List (Int × List Int)) : Json :=
+  jArr (d.map fun kv => jArr [toJson kv.1, jInts kv.2])
+
+/-- non-decreasing listing of exactly the members -/
+def namesSpec (members out : List Int) : Bool :=
+  canonicalBy (fun x : Int => x) intLt members out
+
+def handleNames (j : Json) : R Json := do
+  let enum ← listOf asInt (← fld j "enum")
+  let impl ← listOf asInt (fldD j "impl" (jArr []))
+  return jObj [("model", jInts (enabledTypes enum)), ("spec", b (namesSpec enum impl)),
+               ("scope", b true), ("nontrivial", b (enum.length > 1))]
+
+def handleDefJson (j : Json) : R Json := do
+  let defs ← dictOfJson (← fld j "defs")
+  let impl ← dictOfJson (fldD j "impl" (jArr []))
+  let keysOk := impl.map (·.1) == defs.map (·.1)
+  let valuesOk := (defs.zip impl).all fun (d, i) => namesSpec d.2 i.2
+  return jObj [("model", dictToJson (definitionDomainsJson defs)),
+               ("old", dictToJson (definitionDomainsJsonOld defs)),
+               ("spec", b (keysOk && valuesOk && impl.length == defs.length)),
+               ("scope", b true), ("nontrivial", b (defs.any fun kv => kv.2.length > 1))]
+
+def geneFnOfJson (j : Json) : R GeneFn := do
+  let p := (← idx j 2)
+  let product ← match p with
+    | .null => pure none
+    | _ => do pure (some (← asInt p))
+  return ⟨← asBool (← idx j 0), ← asInt (← idx j 1), product⟩
+def geneFnToJson (g : GeneFn) : Json :=
+  jArr [toJson g.core, toJson g.domain, match g.product with | some p => toJson p | none => Json.null]
+
+def handleAnnotate (j : Json) : R Json := do
+  let existing ← listOf geneFnOfJson (fldD j "existing" (jArr []))
+  let prev ← listOf asInt (fldD j "prev" (jArr []))
+  let defs ← dictOfJson (← fld j "defs")
+  let domains ← listOf asInt (← fld j "domains")
+  let m := annotate existing prev defs domains
+  return jObj [("model", jArr (m.map geneFnToJson)),
+               ("old", jArr ((annotateOld existing prev defs domains).map geneFnToJson)),
+               ("scope", b true), ("nontrivial", b (defs.any fun kv => kv.2.length > 1))]
+
+def protoOfJson (j : Json) : R Proto := do
+  return ⟨← asInt (← idx j 0), ← asInt (← idx j 1), ← asInt (← idx j 2), ← asInt (← idx j 3)⟩
+def protoToJson (p : Proto) : Json := jInts [p.start, p.len, p.product, p.uid]
+
+def handleUniq (j : Json) : R Json := do
+  let cross ← boolF j "cross"
+  let L ← intF j "L"
+  let enum ← listOf protoOfJson (← fld j "enum")
+  let impl ← listOf protoOfJson (fldD j "impl" (jArr []))
+  let m := uniqueProtoclusters cross L enum
+  let tie := hasKeyTie (protoKey cross L) enum
+  return jObj [("model", jArr (m.map protoToJson)),
+               ("old", jArr ((uniqueProtoclustersOld enum).map protoToJson)),
+               ("spec", b (canonicalBy (protoKey cross L) tripleLt enum impl)),
+               ("tie", b tie), ("scope", b (!tie)),
+               ("nontrivial", b (enum.length > 1))]
+
+def fhitOfJson (j : Json) : R FHit := do
+  return ⟨← asNat (← idx j 0), ← asInt (← idx j 1), ← asInt (← idx j 2), ← asInt (← idx j 3), ← asInt (← idx j 4)⟩
+def uidsToJson (l : List FHit) : Json := jArr (l.map fun h => toJson h.uid)
+def optUids (o : Option (List FHit)) : Json := match o with | some l => uidsToJson l | none => Json.null
+
+def handleBest (j : Json) : R Json := do
+  let eqs ← listOf (listOf asInt) (← fld j "eq")
+  let hits ← listOf fhitOfJson (← fld j "hits")
+  let m := filterResultsE id eqs hits
+  let mRev := filterResultsE List.reverse eqs hits
+  -- the pre-D1705 behaviour under two enumerations of the group sets (C13's insertion order and its reverse)
+  let old1 := eqs.foldl (fun hs eq =>
+    let present := (firstOcc (hs.map (·.prof))).filter (fun p => eq.contains p)
+    if present.length < 2 then hs else
+      let removed := (overlappingGroups hs).flatMap fun g =>
+        match bestOfGroupOld g with
+        | none => []
+        | some best => (g.filter (fun h => h.uid != best.uid)).map (·.uid)
+      hs.filter (fun h => !removed.contains h.uid)) hits
+  let ties := (overlappingGroups hits).any fun g => g.any fun a => g.any fun c => a.uid != c.uid && a.sc == c.sc
+  return jObj [("model", optUids m), ("model_rev", optUids mRev), ("old", uidsToJson old1),
+               ("ties", b ties), ("scope", b true),
+               ("nontrivial", b (match m with | some l => l.length < hits.length | none => true))]
+
+def featOfJson (j : Json) : R Feat := do
+  return ⟨← intF j "start", ← intF j "len", ← boolF j "source", ← dictOfJson (← fld j "quals"),
+          ← listOf asInt (← fld j "notes")⟩
+
+def handleWrite (j : Json) : R Json := do
+  let groups ← listOf (listOf featOfJson) (← fld j "groups")
+  let out := writeRecord groups
+  let wf := groups.flatten.all fun f =>
+    let keys := f.quals.map (·.1)
+    !keys.contains noteKey && keys.eraseDups.length == keys.length
+  return jObj [("model", jArr (out.map fun e => jArr [toJson e.1.1, toJson e.1.2.1, toJson e.1.2.2, dictToJson e.2])),
+               ("scope", b wf), ("nontrivial", b (groups.flatten.length > 1))]
+
+def handle (j : Json) : R Json := do
+  match ← strF j "k" with
+  | "names" => handleNames j
+  | "defjson" => handleDefJson j
+  | "annotate" => handleAnnotate j
+  | "uniq" => handleUniq j
+  | "best" => handleBest j
+  | "write" => handleWrite j
+  | k => throw s!"C17: unknown kind {k}"
 
 end ASV.Drv.C17
